@@ -125,6 +125,21 @@ theorem accepted_history_profile_independent (resolve : List String → Nat) (ty
   have hok : ∀ st ∈ steps, st.Ok Γ p.base := fun st hst => (hsteps st hst).ok h
   rw [runs_unique Γ true p.base hB steps init t₁ hinit hok h₁, runs_unique Γ false p.base hB steps init t₂ hinit hok h₂]
 
+/-- **order-independence, declaration level** (C12): two sequences of writes through the accessors of an accepted declaration
+    that are permutations of each other, the writes pairwise touching no common position, both run to completion and end in
+    the same register – in either profile, and also when the two sequences are run under different profiles. -/
+theorem accepted_history_order_independent (resolve : List String → Nat) (types : Nat → Option CustomInfo) (d : DeclSyn)
+    (p : Program) (h : expand resolve types d = .ok p) (Γ : CustomEnv) (chk chk' : Bool) (steps steps' : List Step) (init : Nat)
+    (hinit : init < 2 ^ p.base.internal) (hsteps : ∀ st ∈ steps, LegalStep p Γ st) (hp : steps.Perm steps')
+    (hdis : (steps.map Step.toOp).Pairwise C12.Apart) :
+    ∃ t, Runs Γ chk p.base init steps t ∧ Runs Γ chk' p.base init steps' t := by
+  obtain ⟨hB, _⟩ := C09.expand_fields_ok resolve types d p h
+  have hok : ∀ st ∈ steps, st.Ok Γ p.base := fun st hst => (hsteps st hst).ok h
+  have hok' : ∀ st ∈ steps', st.Ok Γ p.base := fun st hst => hok st (hp.mem_iff.mpr hst)
+  refine ⟨_, runs_exists Γ chk p.base hB steps init hinit hok, ?_⟩
+  rw [C12.disjoint_perm p.base.internal init _ _ hinit (hp.map Step.toOp) hdis]
+  exact runs_exists Γ chk' p.base hB steps' init hinit hok'
+
 /-! ## the builder -/
 
 /-- what an accepted expansion records, read off the definition of `expand` -/
